@@ -23,7 +23,8 @@ def run(seed: Path) -> dict:
         t0 = time.time()
         env = dict(os.environ, VERIF_REPO=wt, VERIF_EVIDENCE_DIR=f"{wt}/_evidence")
         p = subprocess.run([str(V / "check"), prop, "--tier", "quick"], cwd=V, env=env, capture_output=True, text=True)
-        lines = [l for l in p.stdout.splitlines() if l.startswith("VIOLATION") or l.startswith("KNOWN-FINDING")]
+        allv = [l for l in p.stdout.splitlines() if l.startswith("VIOLATION")]
+        lines = allv + [l for l in p.stdout.splitlines() if l.startswith("KNOWN-FINDING")]
         detail = [l for l in p.stdout.splitlines() if l.startswith("  ")][:2]
         res = {"property": prop, "exit": p.returncode, "lines": lines[:6], "detail": detail, "wall_s": round(time.time() - t0, 1)}
     finally:
@@ -36,4 +37,4 @@ if __name__ == "__main__":
     ids = sys.argv[1:] or sorted(p.name for p in (V / "seeded").iterdir() if (p / "patch.diff").exists())
     for i in ids:
         r = run(V / "seeded" / i)
-        print(i, r["exit"], (r["lines"] or ["-"])[-1][:160])
+        print(i, r["exit"], (r["lines"] or ["-"])[0][:160], "|", (r["detail"] or [""])[0][:200])
